@@ -24,6 +24,7 @@ EXPLANATION = (
   " (FIN-decoders) decode_bool, the fps decoder and the safe-area decoder accept the documented values with the documented meaning and reject near misses (probe tables evaluated with the finite evaluator);"
   " (CONFIG) the configuration file replaces - is not merged over - the inline configuration;"
   ' (PARAM-pure) the reader / writer / filter entry points do not mutate their configuration argument; (STATE-alias / STATE-global) no module- or class-level state is written on the conversion path;'
+  " (FIN-config) the statements of convert() that produce the JSON object given to read_config_from_json, evaluated for the four combinations of --config / --config_file, yield the file's object when a file is given, else the inline object, else None;"
 )
 RULE_TEXT = "per FileTypes member x {reader, writer}, per configuration class, per output-opening statement, per config field, per set iteration / global mutation"
 UNDECIDED = ["byte identity with the library pipeline as a whole", "that every decoder rejects exactly the undocumented values (decided for the probe tables of decode_bool, the fps decoder and the safe-area decoder only)",
@@ -337,6 +338,154 @@ def check_config(ctx):
               f"configuration section name {v!r} is used by {cs}: one module's settings would be parsed as another's")
 
 
+def check_config_precedence(ctx):
+  """FIN-config: the statements of convert() that produce the JSON object handed to read_config_from_json, evaluated for
+  the four combinations of --config / --config_file given or not, with two distinguishable JSON objects: the result is
+  the file's object when a file is given, else the inline object, else None - the file replaces, it is not merged."""
+  import copy as _copy
+  from ..consteval import ConstEval, NotConst
+  ix = ctx.ix
+  cv = Convert(ctx)
+  f = cv.f
+  a = cv.args
+  reads = [c for c in own_nodes(f.node) if isinstance(c, ast.Call) and getattr(ix.resolve(f.module, c.func, func=f), "qualname", None) == f"{TT}:read_config_from_json" and len(c.args) == 2]
+  if not reads:
+    raise AnalysisError("convert: no read_config_from_json(<class>, <json>) call found")
+  reads.sort(key=lambda c: c.lineno)
+  first = cv.top(reads[0])
+  var = reads[0].args[1]
+  if not isinstance(var, ast.Name) or any(unparse(c.args[1]) != var.id for c in reads):
+    raise AnalysisError("convert: the read_config_from_json calls do not all read one local variable")
+  INLINE = {"general": {"document_lang": "fr"}, "imsc_writer": {"time_format": "frames"}}
+  FILE = {"imsc_writer": {"time_format": "clock_time"}, "lcd": {"safe_area": 5}}
+  ce = ConstEval(ix, symbolic_ok=True)
+
+  class _Undecided(Exception):
+    pass
+
+  def ev(e, env):
+    if isinstance(e, ast.Call) and unparse(e.func) == "json.loads":
+      return _copy.deepcopy(INLINE)
+    if isinstance(e, ast.Call) and unparse(e.func) == "json.load":
+      return _copy.deepcopy(FILE)
+    if isinstance(e, ast.Name) and e.id in env:
+      return env[e.id]
+    if isinstance(e, ast.Attribute) and isinstance(e.value, ast.Name) and e.value.id == a and hasattr(env.get(a), e.attr):
+      return getattr(env[a], e.attr)
+    if isinstance(e, ast.Constant):
+      return e.value
+    if isinstance(e, ast.UnaryOp) and isinstance(e.op, ast.Not):
+      return not ev(e.operand, env)
+    if isinstance(e, ast.BoolOp):
+      v = None
+      for x in e.values:
+        v = ev(x, env)
+        if (isinstance(e.op, ast.And) and not v) or (isinstance(e.op, ast.Or) and v):
+          return v
+      return v
+    if isinstance(e, ast.Compare) and len(e.ops) == 1 and isinstance(e.ops[0], (ast.Is, ast.IsNot, ast.Eq, ast.NotEq)):
+      l, r = ev(e.left, env), ev(e.comparators[0], env)
+      same = (l is r) if isinstance(e.ops[0], (ast.Is, ast.IsNot)) else (l == r)
+      return same if isinstance(e.ops[0], (ast.Is, ast.Eq)) else not same
+    if isinstance(e, ast.Call) and unparse(e.func) in ("dict", "copy.copy", "copy.deepcopy") and len(e.args) == 1:
+      return _copy.deepcopy(ev(e.args[0], env))
+    if isinstance(e, ast.Dict) and all(k is None for k in e.keys):
+      out = {}
+      for v in e.values:
+        x = ev(v, env)
+        if not isinstance(x, dict):
+          raise _Undecided(unparse(e))
+        out.update(x)
+      return out
+    if isinstance(e, ast.BinOp) and isinstance(e.op, ast.BitOr):
+      l, r = ev(e.left, env), ev(e.right, env)
+      if isinstance(l, dict) and isinstance(r, dict):
+        return {**l, **r}
+    if isinstance(e, ast.IfExp):
+      return ev(e.body if ev(e.test, env) else e.orelse, env)
+    try:
+      return ce.ev(f.module, e, None, {k: v for k, v in env.items()})
+    except NotConst as ex:
+      raise _Undecided(f"{short(e, 50)}: {ex}")
+
+  def run(stmts, env):
+    for st in stmts:
+      if (isinstance(st, ast.Expr) and isinstance(st.value, ast.Constant)) or isinstance(st, ast.Pass):
+        continue
+      if isinstance(st, ast.If):
+        run(st.body if ev(st.test, env) else st.orelse, env)
+      elif isinstance(st, ast.With):
+        for it in st.items:
+          if isinstance(it.optional_vars, ast.Name):
+            env[it.optional_vars.id] = "<file>"
+        run(st.body, env)
+      elif isinstance(st, (ast.Assign, ast.AnnAssign)) and getattr(st, "value", None) is not None:
+        tg = st.targets[0] if isinstance(st, ast.Assign) else st.target
+        if isinstance(tg, ast.Name):
+          env[tg.id] = ev(st.value, env)
+        elif isinstance(tg, ast.Subscript) and isinstance(tg.value, ast.Name) and isinstance(env.get(tg.value.id), dict):
+          env[tg.value.id][ev(tg.slice, env)] = ev(st.value, env)
+        else:
+          raise _Undecided(short(st, 50))
+      elif isinstance(st, ast.Expr) and isinstance(st.value, ast.Call) and isinstance(st.value.func, ast.Attribute) and isinstance(st.value.func.value, ast.Name) \
+          and isinstance(env.get(st.value.func.value.id), dict) and st.value.func.attr in ("update", "setdefault", "pop", "clear"):
+        getattr(env[st.value.func.value.id], st.value.func.attr)(*[ev(x, env) for x in st.value.args])
+      elif isinstance(st, ast.For) and isinstance(st.target, (ast.Name, ast.Tuple)):
+        it = ev(st.iter.func.value, env) if isinstance(st.iter, ast.Call) and isinstance(st.iter.func, ast.Attribute) and st.iter.func.attr in ("items", "keys", "values") else ev(st.iter, env)
+        if not isinstance(it, (dict, list, tuple)):
+          raise _Undecided(short(st.iter, 50))
+        seq = list(getattr(it, st.iter.func.attr)()) if isinstance(it, dict) and isinstance(st.iter, ast.Call) and isinstance(st.iter.func, ast.Attribute) and st.iter.func.attr in ("items", "keys", "values") else list(it)
+        for x in seq:
+          if isinstance(st.target, ast.Name):
+            env[st.target.id] = x
+          else:
+            for t_, v_ in zip(st.target.elts, x):
+              env[t_.id] = v_
+          run(st.body, env)
+      else:
+        raise _Undecided(short(st, 60))
+  # the slice of top-level statements before the first read that the variable depends on
+  before = cv.body[:first]
+  needed = {var.id}
+  sliced = []
+  changed = True
+  while changed:
+    changed = False
+    for st in before:
+      if st in sliced:
+        continue
+      stores = {n.id for n in ast.walk(st) if isinstance(n, ast.Name) and isinstance(n.ctx, ast.Store)}
+      mut = {n.func.value.id for n in ast.walk(st) if isinstance(n, ast.Call) and isinstance(n.func, ast.Attribute) and isinstance(n.func.value, ast.Name) and n.func.attr in ("update", "setdefault", "pop", "clear")}
+      if (stores | mut) & needed:
+        sliced.append(st)
+        needed |= {n.id for n in ast.walk(st) if isinstance(n, ast.Name)}
+        changed = True
+  sliced.sort(key=before.index)
+  wrong = []
+  for inline_given in (False, True):
+    for file_given in (False, True):
+      env = {f"{a}.config": "{...}" if inline_given else None, f"{a}.config_file": "cfg.json" if file_given else None}
+      env2 = dict(env)
+
+      class _Args:
+        pass
+      try:
+        # args.<x> reads: ConstEval sees `args.config` through the env key 'args.config' only in the calling variant; bind a namespace object instead
+        ns = {"config": env[f"{a}.config"], "config_file": env[f"{a}.config_file"]}
+        env2 = {a: type("Args", (), ns)()}
+        run(sliced, env2)
+      except _Undecided as ex:
+        raise AnalysisError(f"convert: the configuration-loading statements leave the evaluable subset ({ex})")
+      got = env2.get(var.id)
+      want = FILE if file_given else (INLINE if inline_given else None)
+      if got != want:
+        wrong.append(f"--config {'given' if inline_given else 'absent'}, --config_file {'given' if file_given else 'absent'}: sections {sorted(got) if isinstance(got, dict) else got}, expected {sorted(want) if isinstance(want, dict) else want}")
+  ctx.check(not wrong, "FIN-config", f"{f.qualname}|the configuration file replaces the inline configuration (4 combinations)", ctx.where(f.module, reads[0]),
+            "file's object when a file is given, else the inline object, else None",
+            "the JSON object handed to read_config_from_json is not `file if given, else inline`: " + "; ".join(wrong[:2]) +
+            ": sections given only inline still take effect although a configuration file is given")
+
+
 def check_order_and_output(ctx):
   ix = ctx.ix
   cv = Convert(ctx)
@@ -586,6 +735,7 @@ def check_determinism(ctx):
 def run(ctx):
   check_types(ctx)
   check_config(ctx)
+  check_config_precedence(ctx)
   check_order_and_output(ctx)
   check_decoders(ctx)
   check_decoder_probes(ctx)
